@@ -280,6 +280,12 @@ class SourceToSourceFileImportsTransformation(SourceToSourceTransformationBase):
                 break
         else:
             # First block is entirely comments, so just insert after it.
+            text = self.blocks[0].input.text.joined
+            if text and not text.endswith("\n"):
+                # The file ends in the middle of that block's last line
+                # ("# comment" without a final newline); terminate the line
+                # so that the new blocks aren't glued onto it.
+                blocks = [SourceToSourceTransformation("")] + blocks
             self.blocks[1:1] = blocks
 
     def insert_new_import_block(self):
